@@ -201,8 +201,62 @@ def _argmax_field(key):
     return rec
 
 
+def _pointwise_max_fold(f, field):
+    """`let x = other.F.iter().fold(self.F.clone(), |mut m, (k, &v)| { m.entry(*k).and_modify(|e| *e = (*e).max(v)).or_insert(v); m }); S { F: x }`
+    - the same clone-and-fold, the absent case written as or_insert(v) (= max(bottom, v)).  -> (term, issues) or None if f is not of this form"""
+    st = body_stmts(f)
+    if len(st) != 2 or st[0].get("k") != "Let" or not is_mc(st[0].get("init"), "fold", 2):
+        return None
+    fold = st[0]["init"]
+    x = pname(st[0]["pat"])
+    src = strip(fold["recv"])
+    while is_mc(src, "iter", 0) or is_mc(src, "into_iter", 0):
+        src = strip(src["recv"])
+    expect(acc(src) == ("other", (field,)), "fold must run over other.%s" % field, fold)
+    init = strip(fold["args"][0])
+    expect(is_mc(init, "clone", 0) and acc(init["recv"]) == ("self", (field,)), "fold must start from self.%s.clone()" % field, fold)
+    clo = strip(fold["args"][1])
+    expect(clo.get("k") == "Closure" and len(clo.get("params", [])) == 2 and clo["params"][1].get("k") == "PTuple" and len(clo["params"][1]["elems"]) == 2,
+           "fold closure must be |mut acc, (key, &value)|", fold)
+    m = pname(clo["params"][0])
+    kname = clo["params"][1]["elems"][0].get("n")
+    vp = clo["params"][1]["elems"][1]
+    vname = vp["p"]["n"] if vp["k"] == "PRef" else vp.get("n")
+    body = clo["body"]
+    expect(body.get("k") == "Block" and len(body["stmts"]) == 2, "fold body must be `acc.entry(k).and_modify(max).or_insert(v); acc`", clo)
+    e0 = body["stmts"][0].get("e")
+    expect(is_mc(e0, "or_insert", 1) and acc(e0["args"][0]) == (vname, ()) and is_mc(strip(e0["recv"]), "and_modify", 1) and is_mc(strip(strip(e0["recv"])["recv"]), "entry", 1),
+           "fold body must be entry(key).and_modify(..).or_insert(value)", clo)
+    am = strip(e0["recv"])
+    ent = strip(am["recv"])
+    expect(acc(ent["recv"]) == (m, ()) and acc(ent["args"][0]) == (kname, ()), "entry() must be taken on the accumulator with the iterated key", ent)
+    mc = strip(am["args"][0])
+    expect(mc.get("k") == "Closure" and len(mc.get("params", [])) == 1, "and_modify must take |entry|", am)
+    en = pname(mc["params"][0])
+    ab = mc["body"]
+    if ab.get("k") == "Block":
+        expect(len(ab["stmts"]) == 1, "and_modify closure must be one assignment", mc)
+        ab = ab["stmts"][0].get("e") or ab["stmts"][0]
+    issues = []
+    expect(ab.get("k") == "Assign" and acc(ab["l"]) == (en, ()), "and_modify closure must assign through the entry", mc)
+    r = ab["r"]
+    if not (is_mc(r, "max", 1) and acc(r["recv"]) == (en, ()) and acc(r["args"][0]) == (vname, ())):
+        if isinstance(r, dict) and r.get("k") == "Binary":
+            issues.append(("R07.2", "operator", "counters are combined with `%s`, which is not idempotent" % r["op"], r.get("ln")))
+        else:
+            raise Shape("combining operator is not `(*entry).max(value)`", mc)
+    expect(acc(body["stmts"][1].get("e")) == (m, ()), "fold closure must return the accumulator", clo)
+    res = tail(st)
+    expect(res.get("k") == "Struct" and len(res["fields"]) == 1 and res["fields"][0]["n"] == field and acc(res["fields"][0]["e"]) == (x, ()),
+           "result must be `{ %s: <folded> }`" % field, res)
+    return "{%s: pointwise_max(A.%s, B.%s)}" % (field, field, field), issues
+
+
 def _pointwise_max(field):
     def rec(f):
+        alt = _pointwise_max_fold(f, field)
+        if alt is not None:
+            return alt
         st = body_stmts(f)
         issues = []
         expect(len(st) == 3, "expected: clone self.%s; fold other.%s with max; rebuild" % (field, field), f["body"])
@@ -251,7 +305,48 @@ def _max_fold_body(loop, m, issues, target=None):
     raise Shape("combining operator is not `(*entry).max(value)`", b[1])
 
 
+def _fieldwise_nested_array(f):
+    """`let [p, n] = [(&self.a, &other.a), (&self.b, &other.b)].map(|(mine, theirs)| mine.merge(theirs)); S { a: p, b: n }`"""
+    st = body_stmts(f)
+    if len(st) != 2 or st[0].get("k") != "Let" or st[0]["pat"].get("k") != "PSlice" or not is_mc(st[0].get("init"), "map", 1):
+        return None
+    mp = st[0]["init"]
+    arr = strip(mp["recv"])
+    names = [pname(q) for q in st[0]["pat"]["elems"]]
+    expect(arr.get("k") == "Array" and len(arr["elems"]) == len(names) and all(names), "the mapped array and the destructuring pattern must have the same length", st[0])
+    clo = strip(mp["args"][0])
+    expect(clo.get("k") == "Closure" and len(clo.get("params", [])) == 1 and clo["params"][0].get("k") == "PTuple" and len(clo["params"][0]["elems"]) == 2,
+           "map must take |(mine, theirs)|", mp)
+    ca, cb = [pname(q) for q in clo["params"][0]["elems"]]
+    body = clo["body"]
+    if body.get("k") == "Block":
+        expect(len(body["stmts"]) == 1, "closure body must be one expression", clo)
+        body = body["stmts"][0].get("e") or body["stmts"][0]
+    body = strip(body)
+    expect(is_mc(body, "merge", 1) and acc(body["recv"]) == (ca, ()) and acc(body["args"][0]) == (cb, ()), "the mapped closure must be |(mine, theirs)| mine.merge(theirs)", clo)
+    issues = []
+    pairs = {}
+    for nm, el in zip(names, arr["elems"]):
+        el = strip(el)
+        expect(el.get("k") == "Tuple" and len(el["elems"]) == 2, "array elements must be (self.f, other.f) pairs", el)
+        pairs[nm] = (acc(el["elems"][0]), acc(el["elems"][1]))
+    res = tail(st)
+    expect(res.get("k") == "Struct" and res.get("rest") is None, "expected a struct literal", res)
+    parts = []
+    for fl in res["fields"]:
+        src = acc(fl["e"])
+        expect(src is not None and src[0] in pairs and not src[1], "field %s must be one of the mapped bindings" % fl["n"], fl["e"])
+        a, b = pairs[src[0]]
+        if not (a == ("self", (fl["n"],)) and b == ("other", (fl["n"],))):
+            issues.append(("R07.1", "field:%s" % fl["n"], "field `%s` is merged from %s and %s: not the same field of both sides (asymmetric)" % (fl["n"], a, b), fl["e"].get("ln")))
+        parts.append("%s: nested(A.%s, B.%s)" % (fl["n"], fl["n"], fl["n"]))
+    return "{%s}" % ", ".join(parts), issues
+
+
 def _fieldwise_nested(f):
+    alt = _fieldwise_nested_array(f)
+    if alt is not None:
+        return alt
     st = body_stmts(f)
     issues = []
     res = tail(st)
